@@ -70,7 +70,7 @@ func describe(tab *table.Table) []string {
 
 func freshTable() *table.Table {
 	c := cfg.NewConfig()
-	c.Spool_dir = "/tmp"
+	c.Spool_dir = os.TempDir()
 	c.Bad_metrics_max_age = "1h"
 	tc, err := c.TableConfig()
 	if err != nil {
